@@ -177,7 +177,8 @@ class wrapper(dictattr):
     def _kwargs(self):
         return {key: value for key, value in self.items() if key!=_function and key!=_spec}
 
-    def __call__(self, *args, **kwargs):
+    def __call__(self, /, *args, **kwargs):
+        # self is positional-only (here and in every `wrapped`): the wrapped function may have a parameter called 'self' that is passed by keyword
         if self[_function] is None and len(args) == 1 and len(kwargs) == 0:
             return type(self)(function = args[0], **self._kwargs)
         else:
@@ -194,7 +195,7 @@ class try_back(wrapper):
     """
     def __init__(self, function = None, function_fullargspec = None):
         super(try_back, self).__init__(function = function, function_fullargspec = function_fullargspec)
-    def wrapped(self, *args, **kwargs):
+    def wrapped(self, /, *args, **kwargs):
         try:
             return self.function(*args, **kwargs)
         except Exception:
@@ -228,7 +229,7 @@ class try_value(wrapper):
     """
     def __init__(self, function = None, repeat = 0, sleep = 0, return_value = True, value = None, verbose = None, function_fullargspec = None):
         super(try_value, self).__init__(function = function, repeat = repeat, sleep = sleep, return_value = return_value, value = value, verbose = verbose, function_fullargspec = None)
-    def wrapped(self, *args, **kwargs):
+    def wrapped(self, /, *args, **kwargs):
         for i in range(self.repeat):
             try: 
                 return self.function(*args, **kwargs)
@@ -280,7 +281,7 @@ class do_if(wrapper):
     """
     def __init__(self, function = None, inc = None, exc = None, function_fullargspec = None):
         super(do_if, self).__init__(function = function, inc = inc, exc = exc, function_fullargspec = None)
-    def wrapped(self, *args, **kwargs):
+    def wrapped(self, /, *args, **kwargs):
         if self.inc is None and self.exc is None: 
             return self.function(*args, **kwargs)
         arg = getcallarg(self.function, args, kwargs)
@@ -346,7 +347,7 @@ class timer(wrapper):
     def __init__(self, function, n = 1, time = False, function_fullargspec = None):
         super(timer, self).__init__(function = function, n = n, time = time, function_fullargspec = function_fullargspec)
 
-    def wrapped(self, *args, **kwargs):
+    def wrapped(self, /, *args, **kwargs):
         t0 = datetime.datetime.now()
         for _ in range(self.n):
             res = self.function(*args, **kwargs)
@@ -381,7 +382,7 @@ class kwargs_support(wrapper):
     def _args(self):
         return getargs(self.function)
         
-    def wrapped(self, *args, **kwargs):
+    def wrapped(self, /, *args, **kwargs):
         _args = self._args
         kwargs = {key : value for key, value in kwargs.items() if key in _args}
         return self.function(*args, **kwargs)
@@ -430,7 +431,7 @@ class kwpartial(wrapper):
                                kwonlydefaults=spec.kwonlydefaults, 
                                annotations=spec.annotations)
     
-    def wrapped(self, *args, **kwargs):
+    def wrapped(self, /, *args, **kwargs):
         kwargs.update(self.keywords)
         return self.function(*args, **kwargs)
 
